@@ -264,6 +264,9 @@ func c16Notices(res *Result, col *collector, tw *traceWriter, t topo, rng *rand.
 	name := t.Name
 	for si, s := range nodes {
 		for ti, tn := range nodes {
+			if res.tooMany() {
+				return
+			}
 			app := s.socks[0]
 			replay := map[string]any{"topology": name, "sender": s.id, "target": tn.id}
 			for _, u := range unboundNames {
